@@ -124,7 +124,7 @@ def build(U):
     U.use('vstd::utf8::*')
     F = 'main/src/predefined_node/repetition.rs'
     U.ghost(P.CORE, 'core vocabulary')
-    U.ghost(P.input_trait_decl(['span', 'at_start', 'at_end', 'match_string']), 'trait Input (contracts only)')
+    U.ghost(P.input_trait_decl(P.INPUT_BASIC), 'trait Input (contracts only)')
     U.ghost(P.TRAITS, 'trait contracts')
     P.emit_restore_on_none(U)
     U.ghost(SKIPK, 'skip_k')
